@@ -7,7 +7,32 @@ from checks.murmur import murmur3_32
 INT64_MIN, INT64_MAX = -(2 ** 63), 2 ** 63 - 1
 # two pairs of distinct names with the same 32-bit murmur3 value (found by brute force over "c<i>";
 # verified at start-up): they exercise the `hash == hash && !strcmp` order of the chain search
-FULL_COLLISIONS = [(b"c100368", b"c119089"), (b"c4234", b"c146789")]
+FULL_COLLISIONS = [(b"c100368", b"c119089"), (b"c4234", b"c146789"), (b"k118215", b"k351535"), (b"k5d39", b"k8a9df")]
+for _a, _b in FULL_COLLISIONS:
+    assert _a != _b and murmur3_32(_a) == murmur3_32(_b), (_a, _b)
+assert murmur3_32(b"k118215") == 0x0d4a73d6 and murmur3_32(b"k5d39") == 0x00f65ad1
+# formatted lengths around the buffer sizes 1024 / 2048 / 4096 / 8192 of DYNAMIC_VSPRINTF (putstrf)
+VS_LENGTHS = list(range(1000, 1026)) + list(range(2040, 2051)) + list(range(4090, 4101)) + [5000, 10000]
+
+
+def vs_value(n, salt=0):
+    """NUL-free string of n bytes whose content depends on the position (a cut or a shifted
+    copy is visible)"""
+    return bytes(0x21 + (i * 7 + i // 251 + salt) % 94 for i in range(n))
+
+
+def full_collision_ops(r, a, b, filler=()):
+    """both keys have the same 32-bit hash: whichever was put first is DEEPER in the chain; every
+    lookup of the deeper key has to pass a node with an equal hash and another name"""
+    ops = ["new %d" % r] + [kop("put", f, hexs(b"f")) for f in filler]
+    ops += [kop("put", a, "01"), kop("get", b, "0"), kop("put", b, "02"),
+            kop("get", a, "0"), kop("get", a, "1"), kop("get", b, "0"), kop("get", b, "1"), kop("getstr", a), kop("getint", a),
+            kop("putstr", a, hexs(b"77")), kop("getstr", a), kop("getint", a), kop("getstr", b),
+            kop("put", a, "03"), kop("get", a, "0"), kop("get", b, "0"), kop("put", b, "04"), kop("get", a, "0"), kop("get", b, "0"),
+            "size", "walk 0", "walk 1",
+            kop("rm", b), kop("get", a, "0"), kop("get", b, "0"), kop("put", b, "05"), kop("get", a, "0"), kop("get", b, "0"),
+            kop("rm", a), kop("get", b, "0"), kop("get", a, "0"), kop("rm", a), kop("rm", b), "size", "walk 0"]
+    return ops
 
 
 def unhex(w):
@@ -160,8 +185,6 @@ class TheCheck(Check):
     def __init__(self, tier, seed):
         super().__init__(tier, seed)
         self.oracle = Oracle()
-        for a, b in FULL_COLLISIONS:
-            assert a != b and murmur3_32(a) == murmur3_32(b)
 
     # ---- oracle
     def judge(self, op, line):
@@ -274,6 +297,29 @@ class TheCheck(Check):
                     kop("getstr", b"s"), kop("getint", b"absent"), kop("getstr", b"absent")]
         sts.append(Stream("collisions-ints", ops, history=True))
 
+        # 3b. FULL 32-bit collisions: both insertion orders, every range, alone and inside longer chains
+        ops = []
+        for r in (1, 2, 3, 7, 1000, 0):
+            for a, b in FULL_COLLISIONS:
+                for x, y in ((a, b), (b, a)):
+                    ops += full_collision_ops(r, x, y)
+                    fill = colliding(r or 1000, 2, b"f", start=rng.randrange(500))
+                    ops += full_collision_ops(r, x, y, filler=fill)
+        sts.append(Stream("full-hash-collisions", ops, history=True,
+                          note="pairs of distinct names with identical murmur3_32; the deeper key is looked up in both insertion orders"))
+
+        # 3c. putstrf: formatted lengths around every buffer size of DYNAMIC_VSPRINTF
+        ops = []
+        for r in (3, 0):
+            ops.append("new %d" % r)
+            for i, n in enumerate(VS_LENGTHS):
+                k = b"p%d" % (i % 3)
+                ops += [kop("putstrf", k, hexs(vs_value(n, i))), kop("getstr", k), kop("get", k, "0")]
+                if i % 3 == 2:
+                    ops += [kop("rm", b"p0"), kop("rm", b"p1")]
+            ops += ["walk 0", "clear"]
+        sts.append(Stream("putstrf-lengths", ops, history=True, note="formatted lengths 1000..1025, 2040..2050, 4090..4100, 5000, 10000"))
+
         # 4. random histories
         nh, nops = (60, 400) if self.tier == "quick" else (400, 2000)
         ops = []
@@ -293,6 +339,8 @@ class TheCheck(Check):
                     ops.append(kop("put", k, hexs(v)))
                 elif x < 0.38:
                     ops.append(kop("putstr", k, hexs(bytes(rng.randrange(1, 256) for _ in range(rng.randrange(0, 9))))))
+                elif x < 0.40:
+                    ops.append(kop("putstrf", k, hexs(vs_value(rng.choice([0, 1, 7, 1023, 1024, 2047, 2048, rng.choice(VS_LENGTHS)]), rng.randrange(90)))))
                 elif x < 0.44:
                     ops.append(kop("putint", k, str(rng.choice([rng.randrange(-1000, 1000), rng.randrange(INT64_MIN, INT64_MAX + 1)]))))
                 elif x < 0.58:
